@@ -99,7 +99,7 @@ func (c *call) log(ev string, kv ...any) {
 	for i := 0; i+1 < len(kv); i += 2 {
 		e[kv[i].(string)] = kv[i+1]
 	}
-	if ev != "Start" && ev != "Cancel" && ev != "Return" {
+	if ev != "Start" && ev != "Cancel" && ev != "CancelIgnored" && ev != "Return" {
 		el := time.Since(c.start)
 		e["early"] = el < c.threshold/2
 		// pre: certainly before the threshold; late: the threshold certainly elapsed (slack 0.4*T).
@@ -586,10 +586,21 @@ func runOne(idx int, b *Behaviour, kind string, job *Job, rng *rand.Rand) Result
 				c.log("Cancel")
 				cancel()
 				// the caller is blocked in its select with nothing queued (generator: EagerCaller)
+				wasReturned := r.returned
 				select {
 				case rr := <-r.retCh:
 					r.noteReturn(rr)
 				case <-time.After(r.stepWait):
+				}
+				if !r.returned && !wasReturned && !b.Lazy {
+					// "the call ends when the caller's context ends": the branches stay parked under the harness, so
+					// nothing else can end the call; 3 s is four orders of magnitude above a select wake-up
+					select {
+					case rr := <-r.retCh:
+						r.noteReturn(rr)
+					case <-time.After(3 * time.Second):
+						c.log("CancelIgnored")
+					}
 				}
 			default:
 				diverge(i, "unsupported step "+s.A)
